@@ -628,3 +628,32 @@ def needs_normal(ctx, method, why):
     except ValueError:
         ok = True
     ctx.ensure("raises-ValueError", ok)
+
+
+# --- Field.transform("discrete"): every documented form of `thresholds` reaches array_discrete ------------------
+@contract(P, "Field.transform[discrete]/thresholds-given-as-str-list-or-ndarray",
+          params={"form": ["arithmetic", "equal", "list", "ndarray", "tuple"], "process": [False, True]},
+          functions=["transform/field.py:discrete", "transform/array.py:array_discrete"],
+          bounded="native run: 4 x 4 structured field, 3 values")
+def discrete_wrapper_threshold_forms(ctx, form, process):
+    """`thresholds : str or numpy.ndarray` -- 'arithmetic', 'equal' or 'an array of explicitly given thresholds';
+    the wrapper gives the same result as the array function on the stored field (non-processed case) and accepts
+    every documented form"""
+    with symrun.native():
+        srf = gs.SRF(gs.Gaussian(dim=2, var=1.3, len_scale=2.0), seed=11, mean=0.4)
+        srf.structured([np.arange(4.0), np.arange(4.0)])
+        vals = [1.0, 2.0, 5.0]
+        th = {"arithmetic": "arithmetic", "equal": "equal", "list": [-0.2, 0.9], "ndarray": np.array([-0.2, 0.9]),
+              "tuple": (-0.2, 0.9)}[form]
+        raised = None
+        try:
+            out = np.array(srf.transform("discrete", values=vals, thresholds=th, store=False, process=process), dtype=float)
+        except Exception as e:      # noqa
+            raised = repr(e)
+            out = None
+        ok = raised is None and out is not None and set(np.unique(out)) <= set(vals)
+        if ok and form in ("list", "ndarray", "tuple") and not process:
+            f = np.array(srf.field, dtype=float)
+            want = np.where(f < -0.2, 1.0, np.where(f < 0.9, 2.0, 5.0))
+            ok = bool(np.array_equal(out, want))
+    ctx.ensure("accepted-and-only-given-values(partition-at-the-thresholds)", ok)
